@@ -45,6 +45,8 @@ import (
 	"os/exec"
 	"path/filepath"
 	"runtime"
+	"runtime/pprof"
+	"sort"
 	"strconv"
 	"strings"
 	"sync"
@@ -203,6 +205,7 @@ type c17req struct {
 	K       int    `json:"k"` // reader/probe: bytes delivered before the error; <0: no fault
 	ErrKind string `json:"err_kind"`
 	Want    string `json:"want"`
+	LongTO  bool   `json:"long_to,omitempty"` // confirmation run of a hang: 4x timeout
 }
 
 type c17resp struct {
@@ -411,10 +414,16 @@ func c17exec(req c17req) c17resp {
 			st.mu.Unlock()
 			return
 		}
-		h := sha1.New()
+		// batches may be delivered out of order (parallel header parsing); consumers order them by Order()
+		type ordered struct {
+			order int
+			lines []string
+		}
+		var got []ordered
 		n := 0
 		for it.Next() {
 			b := it.Get()
+			o := ordered{order: b.Order()}
 			for _, s := range b.Slice() {
 				q := ""
 				if s.HasQualities() {
@@ -425,11 +434,19 @@ func c17exec(req c17req) c17resp {
 					}
 					q = string(qb)
 				}
-				fmt.Fprintf(h, "%s\x00%s\x00%s\n", s.Id(), string(s.Sequence()), q)
-				if n == 0 {
-					st.first = fmt.Sprintf("%q %q %q", s.Id(), string(s.Sequence()), q)
-				}
+				o.lines = append(o.lines, fmt.Sprintf("%s\x00%s\x00%s\n", s.Id(), string(s.Sequence()), q))
 				n++
+			}
+			got = append(got, o)
+		}
+		sort.SliceStable(got, func(i, j int) bool { return got[i].order < got[j].order })
+		h := sha1.New()
+		for _, o := range got {
+			for _, l := range o.lines {
+				if st.first == "" {
+					st.first = fmt.Sprintf("%q", l)
+				}
+				io.WriteString(h, l)
 			}
 		}
 		st.mu.Lock()
@@ -445,7 +462,12 @@ func c17exec(req c17req) c17resp {
 			runtime.Gosched()
 		}
 	case <-st.exitCh:
-	case <-time.After(c17hangTimeout):
+	case <-time.After(func() time.Duration {
+		if req.LongTO {
+			return 4 * c17hangTimeout
+		}
+		return c17hangTimeout
+	}()):
 		hung = true
 	}
 	st.mu.Lock()
@@ -506,7 +528,8 @@ func c17probe(req c17req) (nok int64, class string, msg string) {
 	if err != nil {
 		return 0, "first-read-error", err.Error()
 	}
-	nok, err = io.Copy(io.Discard, b)
+	// Read path only (the readers under test use Read; pgzip's WriteTo behaves differently)
+	nok, err = io.Copy(io.Discard, struct{ io.Reader }{b})
 	if err != nil {
 		msg = err.Error()
 	}
@@ -518,6 +541,12 @@ func c17childMain() {
 	log.AddHook(c17hook{})
 	log.StandardLogger().ExitFunc = c17exit
 	out := os.NewFile(3, "c17resp")
+	if pf := os.Getenv("VERIF_C17_CPUPROFILE"); pf != "" {
+		if f, err := os.Create(fmt.Sprintf("%s.%d", pf, os.Getpid())); err == nil {
+			pprof.StartCPUProfile(f)
+			defer pprof.StopCPUProfile()
+		}
+	}
 	in := bufio.NewReaderSize(os.Stdin, 1<<16)
 	for {
 		line, err := in.ReadBytes('\n')
@@ -575,7 +604,7 @@ func c17spawn() (*c17child, error) {
 		return nil, err
 	}
 	cmd := exec.Command(os.Args[0], "-test.run", "^TestVerifC17$", "-test.count=1", "-test.timeout", "0")
-	cmd.Env = append(os.Environ(), "VERIF_C17_CHILD=1")
+	cmd.Env = append(os.Environ(), "VERIF_C17_CHILD=1", "GOMAXPROCS=4", "GOGC=1000")
 	cmd.ExtraFiles = []*os.File{pw}
 	tail := &c17tail{}
 	cmd.Stderr = tail
@@ -603,9 +632,15 @@ func c17spawn() (*c17child, error) {
 }
 
 func (c *c17child) kill() {
-	c.in.Close()
-	c.cmd.Process.Kill()
-	c.cmd.Wait()
+	c.in.Close() // end of requests: the child returns from its serving loop and exits
+	done := make(chan struct{})
+	go func() { c.cmd.Wait(); close(done) }()
+	select {
+	case <-done:
+	case <-time.After(5 * time.Second):
+		c.cmd.Process.Kill()
+		<-done
+	}
 	c.outf.Close()
 }
 
@@ -625,7 +660,7 @@ func (c *c17child) call(req c17req) (resp c17resp, crashed bool) {
 			return c.crashInfo(req, "protocol error: "+string(l)), true
 		}
 		return resp, false
-	case <-time.After(c17hangTimeout + 30*time.Second):
+	case <-time.After(5*c17hangTimeout + 30*time.Second):
 		c.cmd.Process.Kill()
 		r := c17resp{Seq: req.Seq, Outcome: "hang", Msg: "child unresponsive", Dirty: true}
 		return r, true
@@ -741,11 +776,6 @@ func c17parseOut(out []byte) (int, string) {
 			}
 			recs = append(recs, c17rec{id: idOf(lines[i]), seq: strings.ToLower(lines[i+1]), qual: lines[i+3]})
 		}
-		for ; i < len(lines); i++ {
-			if lines[i] != "" && len(recs) > 0 && i%4 != 0 {
-				// trailing partial record
-			}
-		}
 	} else {
 		var cur *c17rec
 		for ; i < len(lines); i++ {
@@ -774,7 +804,15 @@ type c17binres struct {
 }
 
 func c17runBinary(bin, path string, stdin bool, want string) c17binres {
-	ctx, cancel := context.WithTimeout(context.Background(), 90*time.Second)
+	res := c17runBinaryTO(bin, path, stdin, want, 90*time.Second)
+	if res.exit == -2 {
+		res = c17runBinaryTO(bin, path, stdin, want, 360*time.Second)
+	}
+	return res
+}
+
+func c17runBinaryTO(bin, path string, stdin bool, want string, to time.Duration) c17binres {
+	ctx, cancel := context.WithTimeout(context.Background(), to)
 	defer cancel()
 	var cmd *exec.Cmd
 	if stdin {
@@ -796,7 +834,7 @@ func c17runBinary(bin, path string, stdin bool, want string) c17binres {
 	res := c17binres{}
 	if ctx.Err() != nil {
 		res.exit = -2
-		res.msg = "timeout (90 s)"
+		res.msg = "timeout"
 		return res
 	}
 	if err != nil {
@@ -863,7 +901,30 @@ func c17mix(k int) uint32 {
 	return x
 }
 
+// c17stdinClass labels a faulted gzip image for the keys of the stdin driver (independent decoder).
+func c17stdinClass(codec string, data []byte) string {
+	if len(data) < 2 || data[0] != 0x1f || data[1] != 0x8b {
+		return "not-recognised-as-gzip"
+	}
+	switch c17refClass(codec, data) {
+	case "truncated-header", "truncated-stream":
+		return "truncated"
+	}
+	return "corrupt"
+}
+
 // ------------------------------------------------------------------------------------------ test
+
+type c17worker struct {
+	id    int
+	child *c17child
+	seq   int
+}
+
+type c17item struct {
+	idx int
+	c   c17case
+}
 
 func TestVerifC17(t *testing.T) {
 	if os.Getenv("VERIF_C17_CHILD") == "1" {
@@ -905,18 +966,46 @@ func TestVerifC17(t *testing.T) {
 	if thorough {
 		binRate = 4
 	}
+	nworkers := 5
+	if s := os.Getenv("VERIF_C17_WORKERS"); s != "" {
+		if n, err := strconv.Atoi(s); err == nil && n > 0 {
+			nworkers = n
+		}
+	}
 	codecs := []string{"gz", "bz2", "xz", "zst"}
 	baseNames := []string{"fa300", "fq2k"}
 	if thorough {
 		baseNames = append(baseNames, "fq300", "fa2k", "fa1m2")
 	}
 	r.Bound("codecs", codecs)
+	r.Bound("base_files", baseNames)
 	r.Bound("binary_subset", fmt.Sprintf("1 in %d of the file-driver cases (hash of the case index); stdin driver: all", binRate))
-	r.Bound("large_file_positions", "every length in the first and last 2 KiB, every 4 KiB in between (sampled); no bit flips")
+	r.Bound("large_file_positions", "fa1m2: every position in the first and last 2 KiB of the compressed image, every 4 KiB in between (sampled); no bit flips")
+
+	// ---- failure of the harness itself (never a verdict)
+	var failMu sync.Mutex
+	failMsg := ""
+	fail := func(format string, a ...any) {
+		failMu.Lock()
+		if failMsg == "" {
+			failMsg = fmt.Sprintf(format, a...)
+		}
+		failMu.Unlock()
+	}
+	failed := func() bool {
+		failMu.Lock()
+		defer failMu.Unlock()
+		return failMsg != ""
+	}
 
 	// ---- lazily built bases / compressed images / on-disk intact copies
+	var mu sync.Mutex
 	bases := map[string]*c17base{}
+	images := map[string][]byte{}
+	intactPath := map[string]string{}
 	getBase := func(n string) *c17base {
+		mu.Lock()
+		defer mu.Unlock()
 		if b, ok := bases[n]; ok {
 			return b
 		}
@@ -924,60 +1013,58 @@ func TestVerifC17(t *testing.T) {
 		bases[n] = b
 		return b
 	}
-	images := map[string][]byte{}
 	getImage := func(bn, codec string) []byte {
+		b := getBase(bn)
+		mu.Lock()
+		defer mu.Unlock()
 		k := bn + "." + codec
 		if d, ok := images[k]; ok {
 			return d
 		}
-		d := c17compress(codec, getBase(bn).Plain)
+		d := c17compress(codec, b.Plain)
 		images[k] = d
 		return d
 	}
-	intactPath := map[string]string{}
 	getIntact := func(bn, codec string) string {
+		img := getImage(bn, codec)
+		mu.Lock()
+		defer mu.Unlock()
 		k := bn + "." + codec
 		if p, ok := intactPath[k]; ok {
 			return p
 		}
 		p := filepath.Join(shardDir, "intact_"+bn+"."+codec)
-		if err := os.WriteFile(p, getImage(bn, codec), 0o644); err != nil {
-			t.Fatal(err)
+		if err := os.WriteFile(p, img, 0o644); err != nil {
+			fail("%v", err)
 		}
 		intactPath[k] = p
 		return p
 	}
 
-	// ---- child management
-	var child *c17child
-	defer func() {
-		if child != nil {
-			child.kill()
-		}
-	}()
-	seq := 0
-	call := func(req c17req) c17resp {
-		if child != nil && child.served >= 300 {
-			child.kill()
-			child = nil
+	// ---- child management (one child per worker)
+	call := func(w *c17worker, req c17req) c17resp {
+		if w.child != nil && w.child.served >= 300 {
+			w.child.kill()
+			w.child = nil
 			r.Count("child_recycled", 1)
 		}
-		if child == nil {
+		if w.child == nil {
 			c, err := c17spawn()
 			if err != nil {
-				t.Fatal(err)
+				fail("spawn: %v", err)
+				return c17resp{Outcome: "harness-error"}
 			}
-			child = c
+			w.child = c
 			r.Count("child_spawned", 1)
 		}
-		seq++
-		req.Seq = seq
-		resp, crashed := child.call(req)
+		w.seq++
+		req.Seq = w.seq
+		resp, crashed := w.child.call(req)
 		if crashed || resp.Dirty {
 			if !crashed {
-				child.kill()
+				w.child.kill()
 			}
-			child = nil
+			w.child = nil
 		}
 		return resp
 	}
@@ -1003,8 +1090,14 @@ func TestVerifC17(t *testing.T) {
 			return c
 		}, m)
 	}
+	var nnotes atomic.Int64
+	note := func(format string, a ...any) {
+		if nnotes.Add(1) <= 4 {
+			r.Note(format, a...)
+		}
+	}
 
-	evalCase := func(c c17case) {
+	evalCase := func(w *c17worker, c c17case) {
 		b := getBase(c.Base)
 		img := getImage(c.Base, c.Codec)
 		fault := c17faultName[c.Fault]
@@ -1017,8 +1110,11 @@ func TestVerifC17(t *testing.T) {
 			faulted[c.Pos/8] ^= 1 << uint(c.Pos%8)
 		case "none", "rderr":
 			faulted = img
+		default:
+			fail("unknown fault %q", c.Fault)
+			return
 		}
-		casePath := filepath.Join(shardDir, "c17case."+b.Fmt+"."+c.Codec)
+		casePath := filepath.Join(shardDir, fmt.Sprintf("c17case_w%d.%s.%s", w.id, b.Fmt, c.Codec))
 		r.Eval(1)
 		r.Count("cases_"+c.Driver+"_"+c.Fault, 1)
 
@@ -1027,7 +1123,8 @@ func TestVerifC17(t *testing.T) {
 			var req c17req
 			if c.Driver == "file" {
 				if err := os.WriteFile(casePath, faulted, 0o644); err != nil {
-					t.Fatal(err)
+					fail("%v", err)
+					return
 				}
 				req = c17req{Mode: "file", Path: casePath, K: -1, Want: b.Want}
 			} else {
@@ -1037,9 +1134,17 @@ func TestVerifC17(t *testing.T) {
 				}
 				req = c17req{Mode: "reader", Path: getIntact(c.Base, c.Codec), K: k, ErrKind: c.ErrKind, Want: b.Want}
 			}
-			t0 := time.Now()
-			resp := call(req)
-			r.Count("ms_inproc_"+resp.Outcome, time.Since(t0).Milliseconds())
+			resp := call(w, req)
+			if resp.Outcome == "hang" {
+				// confirm on a fresh child with a 4x timeout (the machine may just be overloaded)
+				r.Count("hang_confirmation_runs", 1)
+				req.LongTO = true
+				resp = call(w, req)
+				req.LongTO = false
+			}
+			if resp.Outcome == "harness-error" {
+				return
+			}
 			r.Trans(1)
 			r.Count("outcome_"+resp.Outcome, 1)
 			r.State(fmt.Sprintf("%s.%s|%s|%s|%s|%d|%v|%s", c.Base, c.Codec, c.Driver, c.Fault, resp.Outcome, resp.NRec, resp.Equal, normMsg(resp.Msg)))
@@ -1048,6 +1153,7 @@ func TestVerifC17(t *testing.T) {
 				drv = "Buf+OBIMimeTypeGuesser+Read" + strings.ToUpper(b.Fmt[:1]) + b.Fmt[1:]
 			}
 			inproc := "failure"
+			label := "unlabelled"
 			switch resp.Outcome {
 			case "ok":
 				if resp.Equal {
@@ -1061,105 +1167,89 @@ func TestVerifC17(t *testing.T) {
 					r.Count("silent_partial", 1)
 					preq := req
 					preq.Mode = "probe"
-					p := call(preq)
+					p := call(w, preq)
 					site := "mime-sniffer"
 					switch {
 					case p.Class == "first-read-error":
 						site = "Buf"
+					case p.Class == "no-decoder-error":
+						site = "decompression-library"
 					case p.NOK >= 1024*1024:
 						site = "chunk-reader"
 					}
-					key := fmt.Sprintf("%s/%s/silent-partial:%s@%s", drv, fault, p.Class, site)
-					r.Violate(key, fmt.Sprintf("%s: reading succeeded (no error, no fatal) with %d of %d records (digest differs); the stream opened by Buf delivers %d decoded bytes then %s (%s)",
-						c, resp.NRec, b.N, p.NOK, p.Class, p.Msg), c)
+					label = p.Class + "@" + site
+					r.Violate(fmt.Sprintf("%s/%s/silent-partial:%s", drv, fault, label),
+						fmt.Sprintf("%s: reading succeeded (no error, no fatal) and delivered %d records, not the %d original ones (%s); the stream opened by Buf gives %d decoded bytes then %s (%s)",
+							c, resp.NRec, b.N, resp.Msg, p.NOK, p.Class, p.Msg), c)
 				}
 			case "hang":
-				r.Violate(fmt.Sprintf("%s/%s/hang", drv, fault), fmt.Sprintf("%s: neither a fatal exit nor the end of the record stream within %v", c, c17hangTimeout), c)
+				r.Violate(fmt.Sprintf("%s/%s/hang", drv, fault), fmt.Sprintf("%s: neither a fatal exit nor the end of the record stream within %v (confirmed by a second run on a fresh process)", c, 4*c17hangTimeout), c)
 			case "crash", "panic":
-				r.Note("crash/panic outcome (counts as a reported failure): %s: %s", c, resp.Msg)
+				r.Count("crash_or_panic_counted_as_reported", 1)
+				note("crash/panic outcome (counts as a reported failure): %s: %s", c, resp.Msg)
 			}
 			if c.Fault == "none" && inproc != "success-full" {
-				t.Fatalf("c17: control case %s failed: %+v", c, resp)
+				fail("control case %s failed: %+v", c, resp)
+				return
 			}
 			if c.Driver == "file" && c.Bin {
-				t1 := time.Now()
 				br := c17runBinary(bin, casePath, false, b.Want)
-				r.Count("ms_binary", time.Since(t1).Milliseconds())
 				r.Count("binary_runs", 1)
 				r.Trans(1)
 				bcl := "failure"
 				switch {
 				case br.exit == -2:
-					r.Violate(fmt.Sprintf("obiconvert/%s/hang", fault), fmt.Sprintf("%s: obiconvert <file> did not end within 90 s", c), c)
+					r.Violate(fmt.Sprintf("obiconvert/%s/hang", fault), fmt.Sprintf("%s: obiconvert <file> did not end within 360 s (second attempt)", c), c)
 				case br.exit == 0 && br.equal:
 					bcl = "success-full"
 				case br.exit == 0:
 					bcl = "success-partial"
-					site := "mime-sniffer-or-Buf"
-					if b.Large {
-						site = "mime-sniffer-or-chunk-reader"
-					}
-					if resp.Outcome == "ok" && !resp.Equal {
-						// same labels as the in-process verdict
-						preq := req
-						preq.Mode = "probe"
-						p := call(preq)
-						site = "mime-sniffer"
-						switch {
-						case p.Class == "first-read-error":
-							site = "Buf"
-						case p.NOK >= 1024*1024:
-							site = "chunk-reader"
-						}
-						site = p.Class + "@" + site
-					}
-					r.Violate(fmt.Sprintf("obiconvert/%s/exit0-partial:%s", fault, site),
-						fmt.Sprintf("%s: `obiconvert <file>` exit status 0 with %d of %d records written", c, br.nrec, b.N), c)
+					r.Violate(fmt.Sprintf("obiconvert/%s/exit0-partial:%s", fault, label),
+						fmt.Sprintf("%s: `obiconvert <file>` ends with exit status 0 after writing %d of %d records", c, br.nrec, b.N), c)
 				}
 				r.Count("binary_"+bcl, 1)
 				if bcl == inproc {
 					r.Count("binary_agrees_with_inprocess", 1)
 				} else {
 					r.Count("binary_disagrees_with_inprocess", 1)
-					r.Note("binary/in-process disagreement: %s: in-process %s (%s %s), binary %s (exit %d %s)", c, inproc, resp.Outcome, resp.Msg, bcl, br.exit, br.msg)
+					note("binary/in-process disagreement: %s: in-process %s (%s %s), binary %s (exit %d %s)", c, inproc, resp.Outcome, resp.Msg, bcl, br.exit, br.msg)
 				}
 				if c.Fault == "none" && bcl != "success-full" {
-					t.Fatalf("c17: binary control case %s failed: %+v", c, br)
+					fail("binary control case %s failed: %+v", c, br)
 				}
 			}
 		case "stdin":
 			if err := os.WriteFile(casePath, faulted, 0o644); err != nil {
-				t.Fatal(err)
+				fail("%v", err)
+				return
 			}
-			t1 := time.Now()
 			br := c17runBinary(bin, casePath, true, b.Want)
-			r.Count("ms_binary", time.Since(t1).Milliseconds())
 			r.Count("binary_runs", 1)
 			r.Trans(1)
 			r.State(fmt.Sprintf("%s.%s|stdin|%s|%d|%d|%v", c.Base, c.Codec, c.Fault, br.exit, br.nrec, br.equal))
 			switch {
 			case br.exit == -2:
 				r.Count("outcome_hang", 1)
-				r.Violate(fmt.Sprintf("obiconvert-stdin/%s/hang", fault), fmt.Sprintf("%s: `obiconvert < file` did not end within 90 s", c), c)
+				r.Violate(fmt.Sprintf("obiconvert-stdin/%s/hang", fault), fmt.Sprintf("%s: `obiconvert < file` did not end within 360 s (second attempt)", c), c)
 			case br.exit == 0 && br.equal:
 				r.Count("accepted_with_complete_records", 1)
-				r.Count("outcome_ok", 1)
+				r.Count("stdin_exit0_full", 1)
 				if c.Fault == "none" {
 					r.Count("control_ok", 1)
 				}
 			case br.exit == 0:
 				r.Count("silent_partial", 1)
-				r.Count("outcome_ok", 1)
-				r.Violate(fmt.Sprintf("obiconvert-stdin/%s/exit0-partial:%s@kseq-gzread", fault, c17refClass(c.Codec, faulted)),
-					fmt.Sprintf("%s: `obiconvert < file` exit status 0 with %d of %d records written", c, br.nrec, b.N), c)
+				r.Count("stdin_exit0_partial", 1)
+				r.Violate(fmt.Sprintf("obiconvert-stdin/%s/exit0-partial:%s@kseq-gzread", fault, c17stdinClass(c.Codec, faulted)),
+					fmt.Sprintf("%s: `obiconvert < file` ends with exit status 0 after writing %d of %d records (reference gzip decoder: %s)", c, br.nrec, b.N, c17refClass(c.Codec, faulted)), c)
 			default:
-				r.Count("outcome_exit_nonzero", 1)
+				r.Count("stdin_exit_nonzero", 1)
 			}
 			if c.Fault == "none" && !(br.exit == 0 && br.equal) {
-				t.Fatalf("c17: stdin control case %s failed: %+v", c, br)
+				fail("stdin control case %s failed: %+v", c, br)
 			}
 		default:
-			t.Fatalf("c17: unknown driver %q", c.Driver)
+			fail("unknown driver %q", c.Driver)
 		}
 	}
 
@@ -1168,33 +1258,63 @@ func TestVerifC17(t *testing.T) {
 		if err := json.Unmarshal(rc, &c); err != nil {
 			t.Fatal(err)
 		}
-		evalCase(c)
+		w := &c17worker{}
+		evalCase(w, c)
+		if w.child != nil {
+			w.child.kill()
+		}
+		if failed() {
+			t.Fatal(failMsg)
+		}
 		return
 	}
 
-	// ---- enumeration
+	// ---- enumeration: a generator feeds the work items of this shard to nworkers workers
+	items := make(chan c17item, 64)
+	var stop atomic.Bool
+	var wg sync.WaitGroup
+	for i := 0; i < nworkers; i++ {
+		wg.Add(1)
+		go func(id int) {
+			defer wg.Done()
+			w := &c17worker{id: id}
+			defer func() {
+				if w.child != nil {
+					w.child.kill()
+				}
+			}()
+			for it := range items {
+				if stop.Load() {
+					continue
+				}
+				if failed() || r.Expired() {
+					stop.Store(true)
+					continue
+				}
+				evalCase(w, it.c)
+			}
+		}(i)
+	}
 	k := 0
+	sizes := map[string]int{}
 	visit := func(c c17case) bool {
-		mine := r.Mine(k)
 		idx := k
 		k++
-		if !mine {
+		if !r.Mine(idx) {
 			return true
 		}
 		if c.Driver == "file" && (c.Fault == "none" || int(c17mix(idx)%uint32(binRate)) == 0) {
 			c.Bin = true
 		}
-		evalCase(c)
-		return !r.Expired()
+		items <- c17item{idx, c}
+		return !stop.Load()
 	}
-	sizes := map[string]int{}
 	func() {
 		for _, bn := range baseNames {
 			b := getBase(bn)
 			for _, codec := range codecs {
 				img := getImage(bn, codec)
 				sizes[bn+"."+codec] = len(img)
-				// controls
 				if !visit(c17case{Base: bn, Codec: codec, Driver: "file", Fault: "none"}) {
 					return
 				}
@@ -1252,8 +1372,13 @@ func TestVerifC17(t *testing.T) {
 			}
 		}
 	}()
+	close(items)
+	wg.Wait()
+	if failed() {
+		t.Fatal("c17 harness failure: " + failMsg)
+	}
 	r.Bound("file_sizes_bytes", sizes)
-	r.Bound("work_items", k)
+	r.Bound("work_items_all_shards", k)
 	r.Sample(c17case{Base: "fa300", Codec: "gz", Driver: "file", Fault: "trunc", Pos: sizes["fa300.gz"] / 2})
 	r.Sample(c17case{Base: "fq2k", Codec: "zst", Driver: "file", Fault: "flip", Pos: 8*40 + 3})
 	r.Sample(c17case{Base: "fq2k", Codec: "plain", Driver: "reader", Fault: "rderr", Pos: 1000, ErrKind: "EIO"})
